@@ -2168,3 +2168,17 @@ def r4b(cx):
 
 
 RS.rules.sort(key=lambda r: r.id)
+
+
+@RS.rule('C01.R4c', 'K-TABLE', 'nounset / ${x?} in the operand of a redirection fail like everywhere else: the error is handled as an expansion '
+         'error, not as a failed open')
+def r4c(cx):
+    from rules.C10 import expansion_cause_in_redirection
+    expansion_cause_in_redirection(cx)
+
+
+RS.rules.sort(key=lambda r: r.id)
+
+
+# --- explanation addendum (generated catalogue in DESIGN.md reads RS.explanation)
+RS.explanation += ' Added after the seed waves and the audit: the pattern word of a trim modifier is expanded on every path (R4b); an expansion error in a redirection operand is handled as an expansion error (R4c).'
